@@ -1,17 +1,30 @@
 """C02 — state minimisation never costs an LR(1) grammar its determinism.
 
-Proof: validated_automata_agree (theories/LR/Agree.v) — two automata for one
-productive grammar that both pass validS/validC/validE give, for ALL inputs,
-the same tree or the same first-error position.  Per generated grammar the
-canonical LR(1) automaton is built by the extracted `canon_lr1` and VALIDATED
-(so "the grammar is LR(1)" is certified, not assumed); the implementation's
-Pager automaton is validated too, must report no conflict, must not have more
-states, and both are run on the same inputs.
-The universal claims over grammars (Pager never creates a conflict / never
-more states) are decided per generated grammar: partial (see DESIGN C02).
+Proofs (Properties/C02.v).
+ * validated_automata_agree (theories/LR/Agree.v): two automata for one productive grammar that both pass
+   validS/validC/validE give, for ALL inputs, the same tree or the same first-error position.
+ * Pager's weak compatibility (theories/C02/{Model,Spec,Proofs}.v): the mirror of Itemset::weakly_compatible decides
+   Pager's definition for every hash order; the mirror of weakly_merge is the item-by-item union with an exact flag.
+ * Pager's merge-safety theorem (theories/C02/Pager*.v) on the declarative LR(1) closure/goto of LR/CloseSpec.v:
+   closure/goto/continuations are linear in the contexts; merging weakly compatible kernels whose canonical
+   continuations are conflict-free gives a kernel whose continuation is conflict-free (weak_merge_safe); every kernel
+   reachable by goto + weak merges from the start kernel of an LR(1) grammar is conflict-free
+   (pager_reachable_conflict_free).
+ * lr1_check (theories/C02/Lr1*.v): a proved-sound executable certificate checker for "the grammar is LR(1)".
+ * pager_mirror (theories/C02/Loop*.v): mirror of pager_stategraph + gc; whenever it returns, every core state is
+   Pager-reachable and every closed state is the exact closure of its core, hence conflict-free for LR(1) grammars.
+Per generated grammar: the canonical LR(1) automaton is built by the extracted `canon_lr1`, VALIDATED and certified by
+lr1_check (so "the grammar is LR(1)" is certified, not assumed); the implementation's Pager automaton is validated too,
+must report no conflict, must not have more states, and both are run on the same inputs.  Ties: checks/c02_weak.py
+(weakly_compatible / weakly_merge through the cfg(grmtools_verif) hooks, on real core states and perturbed item sets)
+and checks/c02_loop.py (pager_mirror replays the implementation's recorded hash orders and must rebuild the identical
+StateGraph).
+Still decided per generated grammar only: termination / panic-freedom of the construction loop, consistency of the
+final edges and the state table (validators), "never more states than the canonical automaton".
 """
 from vlib import core, lr, cfg
 from gen import grammars as G
+from checks import c02_weak, c02_loop
 
 
 def gen_cases(ctx, n_grammars, n_inputs):
@@ -49,8 +62,12 @@ def run(ctx):
     results = lr.run_cases(cases)
     mexe = core.build_model("lr")
     canon = core.run_lines([mexe, "canon"], [r.impl_line for r in results], timeout=2400)
+    # the premise "the grammar is LR(1)" certified by the proved-sound checker lr1_check (C02_lr1_check_sound):
+    # lr1_check g (canon_lr1 g) = true  ->  lr1_grammar g  ->  (C02_pager_reachable_conflict_free) no kernel of a
+    # Pager-style construction has a conflict
+    cert = core.run_lines([core.build_model("c02"), "lr1"], [r.impl_line for r in results], timeout=2400)
     n_lr1 = n_notlalr_like = 0
-    for r, cl in zip(results, canon):
+    for r, cl, ce in zip(results, canon, cert):
         if not r.ok:
             ctx.count("grammar_rejected_" + r.err.split()[0])
             continue
@@ -74,9 +91,22 @@ def run(ctx):
         if r.nstates > nB:
             why.append("minimised automaton has %d states, canonical LR(1) has %d" % (r.nstates, nB))
             no_input = False                       # the grammar itself is the witness
+        ckv = dict(x.split("=") for x in ce.split()[1:] if "=" in x)
+        if confB == 0 and ckv.get("lr1check") != "1":
+            # machinery, never an impl verdict: the certificate for the premise does not check
+            ctx.violation({"what": "canon_lr1 reports no conflict but the proved-sound LR(1) certificate checker lr1_check rejects its automaton",
+                           "grammar": r.src, "canon": head, "lr1_check": ce[:200]}, no_input=True)
+            ctx.oblige(False)
+            continue
+        if confB != 0 and ckv.get("lr1check") == "1":
+            ctx.violation({"what": "lr1_check accepts an automaton in which canon_lr1 counts conflicts",
+                           "grammar": r.src, "canon": head, "lr1_check": ce[:200]}, no_input=True)
+            ctx.oblige(False)
+            continue
         if confB == 0:
             n_lr1 += 1
             ctx.count("lr1")
+            ctx.count("lr1_certified_by_lr1_check")
             if r.nstates < nB:
                 ctx.count("lr1_with_merges")
             if r.conflicts is not None:
@@ -103,6 +133,9 @@ def run(ctx):
         nontriv = confB == 0 and r.nstates >= 4
         ctx.case(r.src, nontriv, {"grammar": r.src, "impl_states": r.nstates, "canonical_states": nB,
                                   "lr1": confB == 0, "inputs": len(r.inputs)})
+    # stage 1 tie, after the property-level comparison so that counterexamples are reported first
+    c02_weak.run_part(ctx, results)        # weakly_compatible / weakly_merge vs mirror vs Pager's definition
+    c02_loop.run_part(ctx, results)        # pager_stategraph vs its mirror, replaying the implementation's trace
     ctx.coverage["lr1_grammars"] = n_lr1
     ctx.coverage["rule"] = ("reduced acyclic grammars, emphasis on LR(1)-not-LALR(1) templates (and embeddings), random reduced grammars, "
                             "nullable-heavy; canonical LR(1) built by extracted canon_lr1 and validated per grammar; "
